@@ -58,8 +58,8 @@ CHECKS = {
              "out of range} with delegated constructors followed; (X6) every loop has a counter/container/stream "
              "bound or an audited termination argument; (X2b) strchr membership excludes NUL; (X8) no "
              "fast-math/no-exceptions flags; (X7) interval analysis of fixed-buffer and alphabet indexes in the five "
-             "codecs. These hold for every input because they hold for every path. Added: (X3m) documented strong guarantee of NearestNeighbor::Initialize/Load; (X7c) with NaN and infinity tracked through the interval analysis, no floating value that may be NaN or infinite is converted to an integer or used to index in the codecs and UTMUPS; (X9) encoder buffers are completely filled for every precision; (X10) every accepted grid code decodes inside the domain; X4 sees through one-line boolean helpers and lambdas; X5 also offers latitude aliases modulo 360.",
-        note="NOT decided: general memory safety, signed overflow, propagation of NaN to the outputs, std-library "
+             "codecs. These hold for every input because they hold for every path. Added: (X3m) documented strong guarantee of NearestNeighbor::Initialize/Load; (X7c) with NaN and infinity tracked through the interval analysis, no floating value that may be NaN or infinite is converted to an integer or used to index in the codecs and UTMUPS; (X9) encoder buffers are completely filled for every precision; (X10) every accepted grid code decodes inside the domain; X4 sees through one-line boolean helpers and lambdas; X5 also offers latitude aliases modulo 360; (NAN2) no two-armed if that a NaN argument decides (every ordered comparison with NaN is false) sends the NaN into an arm that stores pure constants in the variables the other arm computes from that argument - with the argument's NaN followed through assignments and through locals passed by non-const reference (sincosd(lat, sphi, cphi)).",
+        note="NOT decided: general memory safety, signed overflow, propagation of NaN to the outputs beyond the NAN2 clause (a NaN lost in min/max, in a table lookup or in a value computed without the argument is not seen), std-library "
              "logic errors other than X2b. Assumes A-ELLIPTIC-ARGS, A-SINGLETON-NOTHROW; bad_alloc is outside the "
              "contract. One known finding (Utility::readarray partial write).",
         technique="CFG typestate + call-graph may-throw/may-write summaries; Kleene/witness abstract evaluation of guards + interval analysis with NaN/infinity tracking, partial evaluation, path-wise range interpretation",
